@@ -186,26 +186,20 @@ class Model:
         detail = {"pending_occurrences": pend, "valid_conditions_before_loop": recorded, "launched_by_this_loop": new,
                   "valid_conditions_after_loop": remaining}
         if nO < nE:
-            missing, extra = E - O, O - E
             deficit = {c for c in per if rec[c] < per[c]}
-            if not extra:
-                lost = set()
-                left = Counter(missing)
-                for c, a in pend:
-                    if left[a] > 0:
-                        left[a] -= 1
-                        lost.add(c)
-            elif deficit:
-                lost = deficit
+            how = "fewer" if deficit else ("all" if len(recorded) == nE else "more")
+            if len(per) == 1:
+                # every pending occurrence belongs to one condition: the attribution is exact
+                c = next(iter(per))
+                sig = {"clause": "occurrence-not-launched", "logic": self.logic, "kinds": [KIND[c]],
+                       "pending_same_condition": min(per[c], 2), "recorded": how}
+                if per[c] == 1:
+                    sig["earlier_launch_same_condition"] = c in self.launched_conds
             else:
-                m = max(per.values())
-                lost = {c for c in per if per[c] == m}
-            psc = max(per[c] for c in lost)
-            sig = {"clause": "occurrence-not-launched", "logic": self.logic, "kinds": sorted({KIND[c] for c in lost}),
-                   "pending_same_condition": min(psc, 2),
-                   "recorded": "fewer" if deficit else ("all" if len(recorded) == nE else "more")}
-            if psc == 1:
-                sig["earlier_launch_same_condition"] = any(c in self.launched_conds for c in lost)
+                # occurrences of several conditions are pending: the arguments of the launches do not say
+                # reliably which one was dropped (see the arguments clause), so it is not attributed
+                sig = {"clause": "occurrence-not-launched", "logic": self.logic, "pending": "several-conditions",
+                       "recorded": how}
             return sig, detail
         if nO > nE:
             return ({"clause": "launched-more-than-once", "logic": self.logic, "kinds": sorted({KIND[c] for c in per}),
@@ -495,6 +489,12 @@ SCENARIOS: dict[str, dict] = {
                 val_only=True, expect=[("event", 1)]),
     "emit": dict(triggers=[(("e1",), "single"), (("e2",), "single")], pending=[("emit", "e1", 1)],
                  emit=("e2", 1), expect=[("event:e1", 1), ("event:e2", 1)]),
+    # a second occurrence of the SAME condition reported concurrently: the trigger declares OR logic on
+    # its one condition (one run id per occurrence) and both occurrences carry the same payload, so that
+    # neither the one-run-id-for-all nor the arguments-of-the-first-context finding of the history part
+    # is involved and the count of launches is judged
+    "emit-same": dict(triggers=[(("e1",), "or")], pending=[("emit", "e1", 1)], emit=("e1", 1), val_only=True,
+                      expect=[("event", 1), ("event", 1)]),
 }
 
 
@@ -609,19 +609,30 @@ class Scn:
         if ex.outcome != "done":
             p.violation({"clause": f"no-progress:{ex.outcome}", **base}, detail, {})
             return
-        if ex.errors or ex.final_error:
-            what = ex.errors[0][1] if ex.errors else ex.final_error
-            p.violation({"clause": f"loop-iteration-raised:{what}", **base}, detail, {})
+        if ex.final_error:
+            p.violation({"clause": f"sequential-loop-iteration-raised:{ex.final_error}", **base}, detail, {})
             return
+        for _j, what, _msg in ex.errors:
+            # a concurrent iteration that raises has still "run": the property is judged on the launches
+            # (recorded as an observation, see notes/c13_occ.md)
+            p.count("concurrent_loop_iterations_raising")
+            note = f"a concurrent loop iteration / emit raised {what} ({d['backend']}); judged on the launches only"
+            if note not in p.notes:
+                p.notes.append(note)
         E, O = Counter(sc["expect"]), Counter(ex.launched)
         nE, nO = sum(E.values()), sum(O.values())
         if nO > nE:
             won = Counter(rid for _, rid, ok in ex.claims if ok)
             twice = any(n > 1 for n in won.values())
             # schedule-independent identity: what let the second launch through
-            p.violation({"clause": "launched-more-than-once", **base,
-                         "cause": "two-claims-of-one-run-id-succeeded" if twice else "launch-without-own-claim",
-                         "_no_windows": True}, detail, {})
+            if twice:
+                # which scenario / how many deviations exposed it does not identify this failure
+                p.violation({"clause": "launched-more-than-once", "backend": d["backend"],
+                             "cause": "two-claims-of-one-run-id-succeeded", "_no_windows": True},
+                            dict(detail, scenario=d["scenario"]), {})
+            else:
+                p.violation({"clause": "launched-more-than-once", **base, "cause": "launch-without-own-claim",
+                             "_no_windows": True}, detail, {})
             return
         if nO < nE:
             p.violation({"clause": "occurrence-not-launched", **base}, detail, {})
@@ -643,7 +654,7 @@ def sched_descs(ctx: Ctx) -> list[dict]:
     for backend in env.BACKENDS:
         mem = backend == env.MEM
         for scn in SCENARIOS:
-            heavy = scn in ("two-triggers", "or", "emit")
+            heavy = scn in ("two-triggers", "or", "emit", "emit-same")
             if mem:
                 bound = (2 if not heavy else 1) if not th else 2
                 if not th and scn in ("result", "and"):
@@ -662,8 +673,8 @@ def bfs_items(ctx: Ctx) -> list[tuple]:
     items = []
     for name, cfg in CONFIGS.items():
         n = len(cfg["conds"])
-        full_d = (6 if n == 1 else 5) if th else (4 if n < 3 else 3)
-        one_d = (7 if n == 1 else 6) if th else (5 if n < 3 else 4)
+        full_d = (6 if n < 3 else 5) if th else (4 if n < 3 else 3)
+        one_d = (7 if n < 3 else 6) if th else (5 if n < 3 else 4)
         items.append((name, "full", full_d, th))
         items.append((name, "one", one_d, th))
         if "ex" in cfg["conds"] and cfg["logic"] != "and":
@@ -688,6 +699,11 @@ def run_part(ctx: Ctx) -> None:
         ds = [d for d in ds if only in f"sched:{d['backend']}:{d['scenario']}"]
     if ds:
         e1.explore_all(ctx, MOD, ds, lambda d: d["bound"])
+        for v in ctx.violations:
+            sig = v["signature"]
+            if sig.get("cause") == "two-claims-of-one-run-id-succeeded" and "deviations" in sig:
+                # schedule-independent identity (the glue adds the size of the minimised schedule)
+                v["detail"]["deviations_of_minimised_schedule"] = sig.pop("deviations")
     t1 = os.times()
     ctx.extra["occ_cpu_s"] = round((t1.user + t1.system + t1.children_user + t1.children_system)
                                    - (t0.user + t0.system + t0.children_user + t0.children_system), 1)
@@ -719,8 +735,10 @@ def run_part(ctx: Ctx) -> None:
                "1 microsecond per read)")
     ctx.assume("argument providers are declared most specific context type first (ResultContext and ExceptionContext "
                "subclass StatusContext, a status provider declared first also answers for result / exception occurrences)")
-    ctx.assume("schedule part: the concurrent emit_event concerns another trigger than the pending occurrence (two pending "
-               "occurrences of one condition are the sequential finding of the history part)")
+    ctx.assume("schedule part: the concurrent emit_event concerns another trigger than the pending occurrence, or the same "
+               "condition of a trigger that declares OR logic with equal payloads (two pending occurrences of one condition "
+               "under the default logic are the sequential finding of the history part); a concurrent loop iteration that "
+               "raises is counted (concurrent_loop_iterations_raising) and judged on the launches")
 
 
 def replay_part(payload: dict) -> bool:
